@@ -5,8 +5,8 @@
 // A key component travels as ['i', integer] or ['s', [UTF-16 code units]] (['p', [code points]] in the sort cases) so that no
 // string crosses the JSON transport.  case.mode:
 //   'cmp'     : a, b = {k: [components], i: arrival index}; the entries are k.concat([i, record]); when case.same the second
-//               argument IS the first array (an entry compared with itself)                                  -> {r: 0 | 1 | 2} for -1 | undefined | 1
-//   'agg'     : a, b = null | [components]; the arguments are null | JSON.stringify(components)                -> {r: 0 | 1 | 2} for -1 | 0 | 1
+//               argument IS the first array (an entry compared with itself)                                  -> {r: 0 | 1 | 2} for -1 | undefined or 0 | 1
+//   'agg'     : a, b = null | [components]; the arguments are null | JSON.stringify(components)                -> {r: 0 | 1 | 2} for -1 | 0 or undefined | 1
 //   'sort'    : entries = [{k: [components], id}], reverse: the entries go through SortedWriter.write / finish (Array.prototype.sort
 //               with stable_compare, reverse()) into a collecting writer                                      -> {rows: [ids]}
 //   'aggsort' : keys = [[components]]: Array.from(new Set(texts)).sort(compare_aggregation_keys) as AggregateWriter.finish does -> {keys: [[components]]}
@@ -60,10 +60,13 @@ function uncomp(v) {
     throw new Error('unexpected component ' + String(v));
 }
 function sign(r, undef_ok) {
+    // The observable is what Array.prototype.sort (the only caller of both comparators) makes of the answer: it takes ToNumber(v) and reads NaN
+    // as +0 (ECMA-262 CompareArrayElements), so `undefined` (falling off the end of stable_compare) and `0` are ONE answer, "no order".
+    // Demanding `undefined` exactly was more than the property says: the behaviour-preserving change seeded/harmless/C02-h2 (an explicit
+    // `return 0` at the end of stable_compare) raised a false alarm on the entry-compared-with-itself case (notes/s2.md).
     if (r === -1) return 0;
     if (r === 1) return 2;
-    if (r === undefined && undef_ok) return 1;
-    if (r === 0 && !undef_ok) return 1;
+    if (r === undefined || r === 0) return 1;
     return 'unexpected result ' + String(r);
 }
 
